@@ -55,6 +55,9 @@ WPats    == {"eq", "eqfrac", "ints", "fracdef", "fracmin", "mixed", "bound", "ze
 StrPats  == {"empty", "std", "custom", "dup"}
 UlPats   == {"def", "int", "frac", "bigint"}
 FmPats   == {"def", "ident", "scaled", "skew", "huge", "neg"}
+\* "extreme": numbers beyond 1e-290..1e290 (denormal, beyond the reader's clamp): the font is marked
+\* loose and only termination / success of Write and Read is judged for its FontMatrix
+FmPatsX  == FmPats \cup {"extreme"}
 PrivPats == {"none", "typ", "max14", "bnd"}
 ShapePats == {"blank", "mixed", "bulk"}
 Ns       == {1, 2, 3, 5, 12, 40, 150, 230, 258, 300, 520}
@@ -220,6 +223,7 @@ FM(pat, sel, dflt) ==
                             Reals[((sel + 9) % Len(Reals)) + 1], Reals[((sel + 13) % Len(Reals)) + 1],
                             Reals[((sel + 16) % Len(Reals)) + 1] >>
     [] pat = "neg"    -> << <<-1, -3>>, Z, Z, <<-1, -3>>, <<-50, 0>>, <<125, -1>> >>
+    [] pat = "extreme" -> << <<1, -320>>, Z, Z, <<1, -3>>, <<1, 305>>, <<-7, -305>> >>
 
 Blues(pat) == CASE pat = "none"  -> <<>>
                 [] pat = "typ"   -> <<-10, 0, 700, 710>>
@@ -241,7 +245,7 @@ PrivOf(dd, j) ==   \* private dictionary j (1-based) of descriptor dd
       stdVW |-> StdWs[((r + 3) % Len(StdWs)) + 1],
       forceBold |-> (s % 2 = 0),
       fm |-> IF dd.kind = "cid"
-               THEN FM(IF j = 1 THEN dd.fmPat ELSE IF j = 2 THEN "def" ELSE "scaled", r, DefFM)
+               THEN FM(IF j = 1 /\ dd.fmPat # "extreme" THEN dd.fmPat ELSE IF j <= 2 THEN "def" ELSE "scaled", r, DefFM)
                ELSE <<Z, Z, Z, Z, Z, Z>>]
 
 Expand(dd) ==
@@ -273,6 +277,14 @@ Expand(dd) ==
                            sup |-> IntBnd[((dd.intSel + 2) % Len(IntBnd)) + 1]]
              ELSE [reg |-> "", ord |-> "", sup |-> 0],
       priv |-> [j \in 1..nfd |-> PrivOf(dd, j)],
+      loose |-> (dd.fmPat = "extreme"),
+      \* SIDs are 2-byte numbers in 0..64999 (TN5176 section 10): at most 64999 - 390 strings besides the
+      \* standard ones.  A font that needs more cannot be represented; the writer has to refuse it.
+      fits |-> Cardinality(({names[i] : i \in 1..Len(names)}
+                             \cup {s.version, s.notice, s.copyright, s.fullName, s.familyName, s.weight}
+                             \cup (IF cid THEN {IF dd.strPat = "dup" THEN "Shared" ELSE "Adobe",
+                                                 IF dd.strPat = "std" THEN "Bold" ELSE "Identity"} ELSE {}))
+                            \ ({StdStr[i] : i \in 1..NStd} \cup {""})) <= 64999 - (NStd - 1),
       desc |-> dd]
 
 (* ------------------------------- behaviours ---------------------------- *)
@@ -286,7 +298,7 @@ Ofat1 ==  Vary("n", Ns) \cup Vary("namePat", NamePats) \cup Vary("cidPat", CidPa
      \cup Vary("fdPat", FdPats) \cup Vary("encPat", EncPats) \cup Vary("encK", EncKs)
      \cup Vary("nSup", 0..3) \cup Vary("wPat", WPats) \cup Vary("strPat", StrPats)
      \cup Vary("intSel", 1..Len(IntBnd)) \cup Vary("realSel", 1..Len(Reals)) \cup Vary("ulPat", UlPats)
-     \cup Vary("fmPat", FmPats) \cup Vary("privPat", PrivPats) \cup Vary("shapePat", ShapePats)
+     \cup Vary("fmPat", FmPatsX) \cup Vary("privPat", PrivPats) \cup Vary("shapePat", ShapePats)
      \cup {[Dflt EXCEPT !.shapePat = "bulk", !.bulk = b] : b \in Bulks}
      \* combinations that need each other
      \cup {[Dflt EXCEPT !.n = n, !.namePat = p] : n \in {150, 230, 300}, p \in {"iso", "expert", "subset", "mixed", "stdrev", "runs"}}
@@ -310,7 +322,7 @@ Sweep == {[Dflt EXCEPT !.kind = IF p \div 100000 = 0 THEN "simple" ELSE "cid",
                        !.n = 2, !.strPat = "empty", !.encK = 1, !.privPat = "none", !.shapePat = "blank"] : p \in Pads}
 
 Big == {[Dflt EXCEPT !.kind = k, !.n = n, !.nfd = IF k = "cid" THEN 3 ELSE 1, !.namePat = "mixed",
-                   !.cidPat = IF n % 2 = 0 THEN "sparse" ELSE "top", !.fdPat = IF n % 2 = 0 THEN "alt" ELSE "blocks",
+                   !.cidPat = IF 3 * n <= 65535 THEN "sparse" ELSE IF n % 2 = 0 THEN "desc" ELSE "top", !.fdPat = IF n % 2 = 0 THEN "alt" ELSE "blocks",
                    !.encPat = "scatter", !.encK = 256, !.nSup = 3, !.wPat = "mixed", !.shapePat = "blank"] :
           k \in {"simple", "cid"}, n \in BigNs}
        \* one-byte charstrings: CharStrings INDEX body of n bytes (offSize 2 -> 3 at 65535)
